@@ -33,7 +33,7 @@ Definition op_ok (o : op) : Prop :=
   end.
 Definition op_size (o : op) : N := match o with OCreate ks => N.of_nat (length ks) | _ => 0 end.
 (** No partition's id sequence overflows uint64 during the operation. *)
-Definition bounded (s : fstate) (o : op) : Prop := forall p, seq (s p) + 8 * op_size o < 2 ^ 64.
+Definition bounded (s : fstate) (o : op) : Prop := forall p, p < 8 -> seq (s p) + 8 * op_size o < 2 ^ 64.
 
 Inductive reach : fstate -> Prop :=
 | reach_init : reach init_file
@@ -49,23 +49,24 @@ Proof.
 Qed.
 
 Lemma create_list_props ks : forall s, FInv s ->
-  (forall p, seq (s p) + 8 * N.of_nat (length ks) < 2 ^ 64) -> Forall key_ok ks ->
+  (forall p, p < 8 -> seq (s p) + 8 * N.of_nat (length ks) < 2 ^ 64) -> Forall key_ok ks ->
   FInv (fst (create_list s ks)) /\
   (forall k0 id0, id0 <> 0 -> f_find s (kp k0) = id0 -> f_find (fst (create_list s ks)) (kp k0) = id0) /\
   (forall id, f_issued s id -> f_issued (fst (create_list s ks)) id).
 Proof.
   induction ks as [|[p k] r IH]; intros s I Hb Hok; [cbn; auto|].
   inversion Hok as [|? ? [Hp Hf] Hok']; subst. cbn [fst snd] in Hp, Hf.
+  assert (Hp8 : p < 8) by (rewrite Hp; apply hashp_lt).
   rewrite create_list_cons. cbn [fst].
   set (st := fst (create1 (s p) k)). set (s1 := upd s p st).
   assert (I1 : FInv s1).
   { intro q. unfold s1. destruct (N.eq_dec q p) as [->|Hq].
-    - rewrite upd_same. apply create1_inv; auto. specialize (Hb p). cbn [length] in Hb. lia.
+    - rewrite upd_same. apply create1_inv; auto. specialize (Hb p Hp8). cbn [length] in Hb. lia.
     - rewrite upd_other by assumption. apply I. }
-  assert (Hb1 : forall q, seq (s1 q) + 8 * N.of_nat (length r) < 2 ^ 64).
-  { intro q. unfold s1. destruct (N.eq_dec q p) as [->|Hq].
-    - rewrite upd_same. pose proof (create1_seq (s p) k). specialize (Hb p). cbn [length] in Hb. fold st in H. lia.
-    - rewrite upd_other by assumption. specialize (Hb q). cbn [length] in Hb. lia. }
+  assert (Hb1 : forall q, q < 8 -> seq (s1 q) + 8 * N.of_nat (length r) < 2 ^ 64).
+  { intros q Hq8. unfold s1. destruct (N.eq_dec q p) as [->|Hq].
+    - rewrite upd_same. pose proof (create1_seq (s p) k). specialize (Hb p Hp8). cbn [length] in Hb. fold st in H. lia.
+    - rewrite upd_other by assumption. specialize (Hb q Hq8). cbn [length] in Hb. lia. }
   destruct (IH s1 I1 Hb1 Hok') as (IA & IB & IC). split; [assumption|]. split.
   - intros k0 id0 Hnz H0. apply IB; [assumption|]. unfold f_find, kp, s1 in *. cbn [fst snd] in *.
     destruct (N.eq_dec (hashp k0) p) as [E|E].
@@ -82,7 +83,9 @@ Proof.
   intros I Hok Hb. destruct o as [ks|id| | |? ? ?|? ?]; cbn [step fst]; try contradiction.
   - apply create_list_props; auto.
   - intro q. destruct (N.eq_dec q (id_part id)) as [->|E].
-    + rewrite upd_same. apply delete1_inv; auto. specialize (Hb (id_part id)). cbn in Hb. lia.
+    + rewrite upd_same. apply delete1_inv; auto.
+      assert (H8 : id_part id < 8) by (unfold id_part, PARTN; destruct (id =? 0); lia).
+      specialize (Hb _ H8). cbn in Hb. lia.
     + now rewrite upd_other.
   - intro q. now rewrite (reopen_id _ _ (I q)).
   - intro q. now rewrite (compact_id _ _ (I q)).
